@@ -3,6 +3,7 @@
 
 #include <string.h>
 #include <cmath>
+#include <cstdio>
 #include <limits>
 
 namespace photospline{
@@ -473,6 +474,9 @@ void splinetable<Alloc>::write_fits(const std::string& filePath) const{
 	if (error != 0)
 		throw std::runtime_error(("CFITSIO failed to open "+filePath+" for writing").c_str());
 	
+	//If writing fails the incomplete file is removed again: after an I/O error
+	//cfitsio goes on flushing its other buffers, so what is left behind can have
+	//the full size and still lack a block, and would load as a different table.
 	struct fits_cleanup{
 		fitsfile* fits;
 		fits_cleanup(fitsfile* f):fits(f){}
@@ -480,8 +484,7 @@ void splinetable<Alloc>::write_fits(const std::string& filePath) const{
 			if(!fits)
 				return;
 			int error=0;
-			fits_close_file(fits, &error);
-			fits_report_error(stderr, error);
+			fits_delete_file(fits, &error);
 		}
 	} cleanup(fits);
 	
@@ -493,6 +496,13 @@ void splinetable<Alloc>::write_fits(const std::string& filePath) const{
 	fits_close_file(fits, &error);
 	if (error != 0){
 		fits_report_error(stderr, error);
+		int rm_error=0;
+		fitsfile* incomplete=nullptr;
+		fits_open_file(&incomplete, filePath.c_str(), READWRITE, &rm_error);
+		if (rm_error==0)
+			fits_delete_file(incomplete, &rm_error);
+		else
+			std::remove(filePath.c_str());
 		throw std::runtime_error("CFITSIO failed to write "+filePath+" completely: Error "+std::to_string(error));
 	}
 }
